@@ -187,7 +187,7 @@ class ReduceEval(ObjEvaluator):
                 if ci is not None:
                     return row[ci]
             raise AnalysisError("reduce_cell: unsupported subscript of the sorted table (line %d)" % node.lineno)
-        return ObjEvaluator.e_Subscript(self, node, env)
+        return ObjEvaluator.e_Subscript(self, node, env, base)
 
     # ---- comparisons: integer filters fold; real-valued ones are the guards (or a prune of the enumeration)
     def compare(self, op, a, b, node):
@@ -262,6 +262,7 @@ class ReduceEval(ObjEvaluator):
                 start = scalar(it[0])
             if start is not None:
                 return self.summarise_loop(st, env, start)
+            self.hand_down(st.iter, it)
         return ObjEvaluator.exec_stmt(self, st, env)
 
     def summarise_loop(self, st, env, start):
